@@ -9,3 +9,4 @@ import SJ.Props.C09Stream
 #print axioms SJ.Props.C09.c09_stream_offsets_from
 #print axioms SJ.Props.C09.c09_raw_sources
 #print axioms SJ.Props.C09.c09_raw_nested_sources
+#print axioms SJ.Props.C09.c09_raw_map_sources
